@@ -229,6 +229,14 @@ def run_generated(Model, names, span, t, table):
     return ev
 
 
+def outcome_of(Model, names, span, t, table):
+    """('ok', events) or (exception class name, None) of one evaluation pass of the generated code."""
+    try:
+        return 'ok', run_generated(Model, names, span, t, table)
+    except (ZeroDivisionError, OverflowError, TypeError, IndexError, KeyError, AttributeError, NameError, AssertionError) as e:
+        return type(e).__name__, None
+
+
 def run_reference(rec, names, span, t, table):
     ev: List[Any] = []
     arrays = {n: RecArray(n, table[n], ev) for n in table}
@@ -266,6 +274,14 @@ def check_c01(rec, names, Model, symbols, seed, tier, light=False):
             except ZeroDivisionError:
                 continue  # integer literal division by a literal zero etc.: Python semantics on both sides
             except (IndexError, KeyError, AttributeError, NameError, TypeError) as e:
+                # the program itself may be ill-typed under Python/NumPy (e.g. unary minus of a NumPy boolean built from
+                # literals): then the reference interpretation raises the same exception class
+                try:
+                    run_reference(rec, names, span, t, table)
+                except type(e):
+                    continue
+                except Exception:
+                    pass
                 raise Mis(f'c01-generated-code-raised:{type(e).__name__}', error=str(e)[:200], t=t, L=L)
             want = run_reference(rec, names, span, t, table)
             n_exec += 1
@@ -467,8 +483,8 @@ def check_c04(rec, names, Model, seed):
                 for t in (p, p - L):
                     try:
                         ev = run_generated(Model, all_names, span, t, data_table(all_names, L, 0, seed))
-                    except (ZeroDivisionError, OverflowError):
-                        continue  # a literal divided by a literal zero etc.: Python semantics, nothing was read out of place
+                    except (ZeroDivisionError, OverflowError, TypeError):
+                        continue  # a literal divided by a literal zero, an ill-typed constant expression: Python semantics (judged by C01)
                     for e in ev:
                         if e[0] in ('r', 'w'):
                             raw, pos = e[2], e[3]
@@ -657,11 +673,12 @@ def check_c15(rec, names, symbols, seed):
             if rec['lags'] <= ref.LAGS and rec['leads'] <= ref.LEADS:
                 t = ref.LAGS
                 tab = data_table(all_names, L, 2, seed)
-                try:
-                    e1 = run_generated(M, all_names, span, t, tab)
-                    e0 = run_generated(ref, all_names, span, t, tab)
-                except ZeroDivisionError:
-                    continue
+                o1, e1 = outcome_of(M, all_names, span, t, tab)
+                o0, e0 = outcome_of(ref, all_names, span, t, tab)
+                if o1 != o0:
+                    raise Mis('c15-evaluation-differs-between-build-routes', variant=vn, why=f'outcome {o1} vs {o0}')
+                if o0 != 'ok':
+                    continue   # the program itself raises under Python semantics, identically on both routes
                 bad = cmp_events(e1, e0)
                 if bad:
                     raise Mis('c15-evaluation-differs-between-build-routes', variant=vn, why=bad)
@@ -722,10 +739,9 @@ def check_c15(rec, names, symbols, seed):
             L = max(M.LAGS + M.LEADS + 2, 2)
             tab = data_table(all_names, L, 1, seed)
             Mref = fsic.build_model(symbols)
-            try:
-                bad = cmp_events(run_generated(M, all_names, range(L), M.LAGS, tab), run_generated(Mref, all_names, range(L), M.LAGS, tab))
-            except ZeroDivisionError:
-                bad = None
+            o1, e1 = outcome_of(M, all_names, range(L), M.LAGS, tab)
+            o0, e0 = outcome_of(Mref, all_names, range(L), M.LAGS, tab)
+            bad = f'outcome {o1} vs {o0}' if o1 != o0 else (cmp_events(e1, e0) if o0 == 'ok' else None)
             if bad:
                 raise Mis('c15-converter-changes-evaluation', converter=conv.__name__, why=bad)
     return n
@@ -776,8 +792,8 @@ def process(rec, payload, out):
             if 'c20' in checks:
                 try:
                     did += check_c20(rec, names, symbols, Model, seed)
-                except (ZeroDivisionError, OverflowError):
-                    pass  # a literal divided by a literal zero etc. (Python semantics; C01 compares such programs with the reference)
+                except (ZeroDivisionError, OverflowError, TypeError):
+                    pass  # a literal divided by a literal zero, an ill-typed constant expression (Python semantics; C01 compares such programs with the reference)
             if layout != 'canon':
                 continue
             if 'c14' in checks:
